@@ -1,1 +1,618 @@
-/- C07 — theorems (placeholder until the property is built). -/
+/-
+  C07 — Cross-checking flags exactly the left-right inconsistent pixels, nothing else.
+
+  Theorems about the executable model `Model/CrossCheck.lean` (`ccPixel`, `check`, `validationRun`) and
+  its executable specification (`clausesValid`, `clausesPix`).  Any map size, any disparities
+  (rational or NaN), any flag words, any threshold, any interval.
+-/
+import PandoraModel.Model.CrossCheck
+import PandoraModel.Properties.Flags
+import PandoraModel.Generated.Constants
+import PandoraModel.Generated.RefineCC
+import Mathlib.Tactic.Linarith
+import Mathlib.Tactic.Ring
+import Mathlib.Algebra.Order.Field.Basic
+
+namespace Pandora.C07
+open Pandora Pandora.CrossCheck
+
+/-! ## Rounding -/
+
+theorem floor_frac (x : ℚ) : 0 ≤ x - (x.floor : ℚ) ∧ x - (x.floor : ℚ) < 1 := by
+  have h1 := Rat.floor_le x
+  have h2 := Rat.lt_floor_add_one x
+  push_cast at h2
+  constructor <;> linarith
+
+/-- `nearestInts x` are exactly the integers within 1/2 of `x` -/
+theorem mem_nearestInts (x : ℚ) (n : Int) : n ∈ nearestInts x ↔ |x - (n : ℚ)| ≤ 1 / 2 := by
+  obtain ⟨h0, h1⟩ := floor_frac x
+  have key : ∀ k : Int, |x - ((x.floor + k : Int) : ℚ)| ≤ 1 / 2 ↔
+      (k = 0 ∧ x - (x.floor : ℚ) ≤ 1 / 2) ∨ (k = 1 ∧ 1 / 2 ≤ x - (x.floor : ℚ)) := by
+    intro k
+    rw [abs_le]
+    push_cast
+    constructor
+    · rintro ⟨ha, hb⟩
+      have hk0 : (0 : ℚ) - 1 < (k : ℚ) := by linarith
+      have hk1 : (k : ℚ) < 2 := by linarith
+      have hk0' : (-1 : Int) < k := by exact_mod_cast hk0
+      have hk1' : k < 2 := by exact_mod_cast hk1
+      have : k = 0 ∨ k = 1 := by omega
+      rcases this with rfl | rfl
+      · left; exact ⟨rfl, by push_cast at hb; linarith⟩
+      · right; exact ⟨rfl, by push_cast at ha; linarith⟩
+    · rintro (⟨rfl, h⟩ | ⟨rfl, h⟩) <;> push_cast <;> constructor <;> linarith
+  have hn : n = x.floor + (n - x.floor) := by ring
+  rw [hn, key]
+  unfold nearestInts
+  simp only
+  split
+  · rename_i hlt
+    simp only [List.mem_singleton]
+    constructor
+    · intro h; left; exact ⟨by omega, by linarith⟩
+    · rintro (⟨h, -⟩ | ⟨-, h⟩)
+      · omega
+      · linarith
+  · rename_i hnlt
+    split
+    · rename_i hgt
+      simp only [List.mem_singleton]
+      constructor
+      · intro h; right; exact ⟨by omega, by linarith⟩
+      · rintro (⟨-, h⟩ | ⟨h, -⟩)
+        · linarith
+        · omega
+    · rename_i hngt
+      have heq : x - (x.floor : ℚ) = 1 / 2 := le_antisymm (not_lt.mp hngt) (not_lt.mp hnlt)
+      simp only [List.mem_cons, List.not_mem_nil, or_false]
+      constructor
+      · rintro (h | h)
+        · left; exact ⟨by omega, by linarith⟩
+        · right; exact ⟨by omega, by linarith⟩
+      · rintro (⟨h, -⟩ | ⟨h, -⟩)
+        · left; omega
+        · right; omega
+
+/-- numpy's `rint` returns a nearest integer -/
+theorem rint_mem_nearest (x : ℚ) : rint x ∈ nearestInts x := by
+  unfold rint nearestInts
+  simp only
+  split
+  · simp
+  · split
+    · simp
+    · split <;> simp
+
+theorem rint_nearest (x : ℚ) : |x - (rint x : ℚ)| ≤ 1 / 2 := (mem_nearestInts x _).mp (rint_mem_nearest x)
+
+/-- a single nearest integer: `rint` is that one -/
+theorem rint_of_singleton (x : ℚ) (n : Int) (h : nearestInts x = [n]) : rint x = n := by
+  have := rint_mem_nearest x
+  rw [h] at this
+  simpa using this
+
+/-- on an exact half `rint` takes the even neighbour -/
+theorem rint_even_on_tie (x : ℚ) (h : x - (x.floor : ℚ) = 1 / 2) : rint x % 2 = 0 := by
+  unfold rint
+  simp only [h, lt_self_iff_false, ↓reduceIte]
+  split
+  · assumption
+  · omega
+
+/-- the "outside the right image" branch of the code can never be taken (root cause of C07-F1) -/
+theorem outside_never (ncol : Nat) (q : Option Int) : outsideRightAsWritten ncol q = false := by
+  cases q with
+  | none => rfl
+  | some q =>
+    simp only [outsideRightAsWritten, Bool.and_eq_false_iff, decide_eq_false_iff_not]
+    omega
+
+/-! ## Flag words -/
+
+/-- a pixel that is not flagged invalid has bits 8 and 9 clear -/
+theorem valid_bits_clear (flag : Nat) (h : Flags.isInvalid flag = false) :
+    bitAt flag 8 = 0 ∧ bitAt flag 9 = 0 := by
+  have h0 : flag &&& Flags.pixelInvalid = 0 := by
+    simpa [Flags.isInvalid] using h
+  have t8 : flag.testBit 8 = false := by
+    have := congrArg (fun n => Nat.testBit n 8) h0
+    simp only [Nat.testBit_and, Nat.zero_testBit] at this
+    have e : Nat.testBit Flags.pixelInvalid 8 = true := by decide
+    rw [e, Bool.and_true] at this
+    exact this
+  have t9 : flag.testBit 9 = false := by
+    have := congrArg (fun n => Nat.testBit n 9) h0
+    simp only [Nat.testBit_and, Nat.zero_testBit] at this
+    have e : Nat.testBit Flags.pixelInvalid 9 = true := by decide
+    rw [e, Bool.and_true] at this
+    exact this
+  rw [Nat.testBit_eq_decide_div_mod_eq] at t8 t9
+  simp only [decide_eq_false_iff_not] at t8 t9
+  unfold bitAt
+  constructor <;> omega
+
+/-- `+= OCCLUSION; += MISMATCH * k; -= OCCLUSION * k` on a word whose bits 8 and 9 are clear -/
+theorem flag_arith (flag k : Nat) (h8 : bitAt flag 8 = 0) (h9 : bitAt flag 9 = 0) (hk : k = 0 ∨ k = 1) :
+    let f := flag + Flags.occlusion + Flags.mismatch * k - Flags.occlusion * k
+    bitAt f 9 = k ∧ bitAt f 8 = 1 - k ∧ sameExcept89 f flag = true := by
+  simp only [bitAt, Flags.occlusion, Flags.mismatch, sameExcept89, Bool.and_eq_true, beq_iff_eq] at *
+  norm_num at *
+  rcases hk with rfl | rfl <;> omega
+
+/-! ## The mismatch search -/
+
+theorem comp_cases (ncol : Nat) (dR : List Val) (c : Nat) (range : List Int) :
+    comp ncol dR c range = 0 ∨ comp ncol dR c range = 1 := by
+  unfold comp
+  simp only
+  split
+  · right; rfl
+  · omega
+
+theorem comp_eq_one_iff (ncol : Nat) (dR : List Val) (c : Nat) (range : List Int) :
+    comp ncol dR c range = 1 ↔ ∃ d ∈ range, matchAt ncol dR c d = true := by
+  unfold comp
+  simp only
+  have hpos : 0 < (range.filter (matchAt ncol dR c)).length ↔ ∃ d ∈ range, matchAt ncol dR c d = true := by
+    rw [List.length_pos_iff_exists_mem]
+    simp only [List.mem_filter]
+  constructor
+  · intro h
+    apply hpos.mp
+    split at h <;> omega
+  · intro h
+    have := hpos.mpr h
+    split <;> omega
+
+theorem dispRightAt_eq_cell (ncol : Nat) (dR : List Val) (idx : Int) (h : dR.length = ncol) :
+    dispRightAt ncol dR idx = cell dR idx := by
+  simp only [dispRightAt, cell, h]
+
+/-- a strict witness is found by the search -/
+theorem witness_strict_comp (P : Params) (ncol : Nat) (dR : List Val) (c : Nat) (h : dR.length = ncol)
+    (hw : witness true P dR c = true) : comp ncol dR c (arange P.dmin P.dmax) = 1 := by
+  rw [comp_eq_one_iff]
+  simp only [witness, List.any_eq_true] at hw
+  obtain ⟨d, hd, hm⟩ := hw
+  refine ⟨d, hd, ?_⟩
+  simp only [matchAt, dispRightAt_eq_cell _ _ _ h]
+  cases hc : cell dR ((c : Int) + d) with
+  | none => rw [hc] at hm; cases hm
+  | some v =>
+    cases v with
+    | nan => rw [hc] at hm; cases hm
+    | num v =>
+      rw [hc] at hm
+      simp only [↓reduceIte, beq_iff_eq] at hm
+      simp only [beq_iff_eq]
+      exact rint_of_singleton v (-d) hm
+
+/-- what the search finds is a (loose) witness -/
+theorem comp_witness_loose (P : Params) (ncol : Nat) (dR : List Val) (c : Nat) (h : dR.length = ncol)
+    (hk : comp ncol dR c (arange P.dmin P.dmax) = 1) : witness false P dR c = true := by
+  rw [comp_eq_one_iff] at hk
+  obtain ⟨d, hd, hm⟩ := hk
+  simp only [witness, List.any_eq_true]
+  refine ⟨d, hd, ?_⟩
+  simp only [matchAt, dispRightAt_eq_cell _ _ _ h] at hm
+  cases hc : cell dR ((c : Int) + d) with
+  | none => rw [hc] at hm; cases hm
+  | some v =>
+    cases v with
+    | nan => rw [hc] at hm; cases hm
+    | num v =>
+      rw [hc] at hm
+      simp only [beq_iff_eq] at hm
+      simp only [Bool.false_eq_true, ↓reduceIte, List.contains_eq_mem, decide_eq_true_eq]
+      rw [← hm]
+      exact rint_mem_nearest v
+
+/-- `arange lo hi` is the integer interval `[lo, hi]` -/
+theorem mem_arange (lo hi d : Int) : d ∈ arange lo hi ↔ lo ≤ d ∧ d ≤ hi := by
+  simp only [arange, List.mem_map, List.mem_range]
+  constructor
+  · rintro ⟨k, hk, rfl⟩; omega
+  · rintro ⟨h1, h2⟩
+    exact ⟨(d - lo).toNat, by omega, by omega⟩
+
+/-! ## One pixel -/
+
+/-- what `+= OCCLUSION; += MISMATCH * comp; -= OCCLUSION * comp` leaves satisfies every clause of a pixel
+    that is not consistent: mismatch iff the search found a witness, occlusion otherwise, never both, no
+    other bit touched. -/
+theorem flagged_clauses (P : Params) (ncol : Nat) (dL dR : List Val) (c flag : Nat) (conf : Conf) (q : Option Int)
+    (hlen : dR.length = ncol) (hv : Flags.isInvalid flag = false)
+    (hcons : consistentOpt P dL dR c q = false)
+    (hconf : confOKOpt dL dR c conf q = true) :
+    allOK (clausesValid P dL dR c flag
+      ⟨flag + Flags.occlusion + Flags.mismatch * comp ncol dR c (arange P.dmin P.dmax)
+        - Flags.occlusion * comp ncol dR c (arange P.dmin P.dmax), conf⟩ q) = true := by
+  obtain ⟨h8, h9⟩ := valid_bits_clear flag hv
+  have hk := comp_cases ncol dR c (arange P.dmin P.dmax)
+  obtain ⟨b9, b8, hsame⟩ := flag_arith flag _ h8 h9 hk
+  simp only [clausesValid, hcons, Bool.false_eq_true, ↓reduceIte, allOK, List.all_cons, List.all_nil, Bool.and_true,
+    Bool.and_eq_true, hsame, hconf, and_true, b9, b8]
+  rcases hk with hk | hk
+  · -- nothing found: occlusion; there is no strict witness
+    have hns : witness true P dR c = false := by
+      by_contra hw
+      have := witness_strict_comp P ncol dR c hlen (by simpa using hw)
+      omega
+    simp [hk, hns]
+  · -- found: mismatch; it is a loose witness
+    have hwl := comp_witness_loose P ncol dR c hlen hk
+    simp [hk, hwl]
+
+
+theorem cell_inrange (g : List Val) (i : Int) (h0 : 0 ≤ i) (h1 : i < (g.length : Int)) :
+    cell g i = some (g.getD i.toNat .nan) := by
+  simp [cell, h0, h1]
+
+/-- a pixel whose correspondent lies in the right image: the confidence cell is the left-right
+    distance, the pixel is kept iff that distance is within the threshold, and otherwise flagged
+    mismatch / occlusion as the statement says -/
+theorem ccInside_clauses (P : Params) (ncol : Nat) (dL dR : List Val) (c flag : Nat) (qi : Int)
+    (hlen : dR.length = ncol) (hv : Flags.isInvalid flag = false) (h0 : 0 ≤ qi) (h1 : qi < (ncol : Int)) :
+    allOK (clausesValid P dL dR c flag (ccInside P ncol dL dR c flag qi) (some qi)) = true := by
+  have hcell : cell dR qi = some (dR.getD qi.toNat .nan) := cell_inrange dR qi h0 (by rw [hlen]; exact h1)
+  have hdist : distance dL dR c qi
+      = some (absSum (nanToInf (dR.getD qi.toNat .nan)) (nanToInf (dL.getD c .nan))) := by
+    simp only [distance, hcell]
+  unfold ccInside
+  simp only
+  cases hx : absSum (nanToInf (dR.getD qi.toNat .nan)) (nanToInf (dL.getD c .nan)) with
+  | inf =>
+    simp only [Ext.gt, ↓reduceIte]
+    apply flagged_clauses P ncol dL dR c flag _ (some qi) hlen hv
+    · simp only [consistentOpt, consistentAt, hdist, hx]
+    · simp only [confOKOpt, hdist, hx, beq_self_eq_true]
+  | fin x =>
+    simp only [Ext.gt]
+    by_cases hgt : P.threshold < x
+    · simp only [hgt, decide_true, ↓reduceIte]
+      apply flagged_clauses P ncol dL dR c flag _ (some qi) hlen hv
+      · simp only [consistentOpt, consistentAt, hdist, hx, decide_eq_false_iff_not, not_le]; exact hgt
+      · simp only [confOKOpt, hdist, hx, beq_self_eq_true]
+    · have hle : x ≤ P.threshold := not_lt.mp hgt
+      simp only [hgt, decide_false, Bool.false_eq_true, ↓reduceIte]
+      have hcons : consistentOpt P dL dR c (some qi) = true := by
+        simp only [consistentOpt, consistentAt, hdist, hx, decide_eq_true_eq]; exact hle
+      simp only [clausesValid, hcons, ↓reduceIte, allOK, List.all_cons, List.all_nil, Bool.and_true, beq_self_eq_true,
+        Bool.true_and, confOKOpt, hdist, hx]
+
+/-- the choice among several nearest integers: if the outcome is right for one of them, the pixel's
+    clauses hold -/
+theorem clausesPix_of_candidate (P : Params) (dL dR : List Val) (c flag : Nat) (o : PixOut) (qi : Int)
+    (hv : Flags.isInvalid flag = false) (hmem : qi ∈ correspondents dL c)
+    (hok : allOK (clausesValid P dL dR c flag o (some qi)) = true) :
+    allOK (clausesPix P false dL dR c flag o) = true := by
+  unfold clausesPix
+  simp only [Bool.false_eq_true, ↓reduceIte, hv]
+  cases hl : correspondents dL c with
+  | nil => rw [hl] at hmem; cases hmem
+  | cons q qs =>
+    cases qs with
+    | nil =>
+      rw [hl] at hmem
+      simp only [List.mem_singleton] at hmem
+      subst hmem
+      exact hok
+    | cons q' qs' =>
+      simp only
+      cases hf : List.find? (fun q => allOK (clausesValid P dL dR c flag o (some q))) (q :: q' :: qs') with
+      | some q'' =>
+        simp only
+        have := List.find?_some hf
+        exact this
+      | none =>
+        exfalso
+        rw [List.find?_eq_none] at hf
+        rw [hl] at hmem
+        exact absurd hok (by simpa using hf qi hmem)
+
+variable (V : Variant)
+
+/-- **C07, one pixel whose correspondent is in the image (or that was already invalid).** -/
+theorem ccPixel_spec_partial (P : Params) (ncol : Nat) (dL dR : List Val) (c flag : Nat)
+    (hlen : dR.length = ncol)
+    (hin : Flags.isInvalid flag = false → insideRight ncol (colRight c (dL.getD c .nan)) = true) :
+    allOK (clausesPix P false dL dR c flag (ccPixel V P ncol dL dR c flag)) = true := by
+  by_cases hv : Flags.isInvalid flag = true
+  · simp [clausesPix, ccPixel, hv, allOK]
+  · have hv' : Flags.isInvalid flag = false := by simpa using hv
+    have hi := hin hv'
+    cases hd : dL.getD c .nan with
+    | nan => rw [hd] at hi; simp [colRight, insideRight] at hi
+    | num d =>
+      rw [hd] at hi
+      simp only [colRight, insideRight, Bool.and_eq_true, decide_eq_true_eq] at hi
+      have hmodel : ccPixel V P ncol dL dR c flag = ccInside P ncol dL dR c flag ((c : Int) + rint d) := by
+        simp only [ccPixel, hv', Bool.false_eq_true, ↓reduceIte, hd, colRight, insideRight, hi.1, hi.2, decide_true,
+          Bool.and_self]
+      rw [hmodel]
+      apply clausesPix_of_candidate P dL dR c flag _ ((c : Int) + rint d) hv'
+      · simp only [correspondents, hd, List.mem_map]; exact ⟨rint d, rint_mem_nearest d, rfl⟩
+      · exact ccInside_clauses P ncol dL dR c flag _ hlen hv' hi.1 hi.2
+
+
+/-! ### Facts that hold for every pixel, whatever the inputs -/
+
+/-- pixels already invalid are not re-examined -/
+theorem ccPixel_invalid (P : Params) (ncol : Nat) (dL dR : List Val) (c flag : Nat)
+    (h : Flags.isInvalid flag = true) : ccPixel V P ncol dL dR c flag = ⟨flag, .nan⟩ := by
+  simp [ccPixel, h]
+
+/-- **C07-F1, in general**: a valid pixel whose correspondent is not in the right image (or has none)
+    comes out exactly as it went in — it is never flagged. -/
+theorem ccPixel_outside_unflagged (P : Params) (ncol : Nat) (dL dR : List Val) (c flag : Nat)
+    (hv : Flags.isInvalid flag = false) (hout : insideRight ncol (colRight c (dL.getD c .nan)) = false) :
+    ccPixel .asIs P ncol dL dR c flag = ⟨flag, .nan⟩ := by
+  simp only [ccPixel, ccOutside, hv, Bool.false_eq_true, ↓reduceIte, hout, outside_never]
+
+theorem ccInside_flag_cases (P : Params) (ncol : Nat) (dL dR : List Val) (c flag : Nat) (qi : Int) :
+    (ccInside P ncol dL dR c flag qi).flag = flag
+    ∨ (ccInside P ncol dL dR c flag qi).flag = flag + Flags.occlusion
+    ∨ (ccInside P ncol dL dR c flag qi).flag = flag + Flags.mismatch := by
+  unfold ccInside
+  simp only
+  split
+  · rcases comp_cases ncol dR c (arange P.dmin P.dmax) with h | h <;> rw [h]
+    · right; left; simp
+    · right; right; simp only [Flags.occlusion, Flags.mismatch]; omega
+  · left; rfl
+
+theorem ccPixel_flag_cases (P : Params) (ncol : Nat) (dL dR : List Val) (c flag : Nat) :
+    (ccPixel V P ncol dL dR c flag).flag = flag
+    ∨ (ccPixel V P ncol dL dR c flag).flag = flag + Flags.occlusion
+    ∨ (ccPixel V P ncol dL dR c flag).flag = flag + Flags.mismatch := by
+  unfold ccPixel
+  split
+  · left; rfl
+  · simp only
+    split
+    · split
+      · exact ccInside_flag_cases ..
+      · left; rfl
+    · cases V <;> simp only [ccOutside, outside_never, Bool.false_eq_true, ↓reduceIte]
+      · left; trivial
+      · right; left; trivial
+      · rcases comp_cases ncol dR c (arange P.dmin P.dmax) with h | h <;> rw [h]
+        · right; left; simp
+        · right; right; simp only [Flags.occlusion, Flags.mismatch]; omega
+
+/-- **never both, no other bit**: on a previously valid pixel the step sets at most one of bits 8
+    and 9 and touches no other bit — for every input -/
+theorem ccPixel_never_both (P : Params) (ncol : Nat) (dL dR : List Val) (c flag : Nat)
+    (hv : Flags.isInvalid flag = false) :
+    ¬(bitAt (ccPixel V P ncol dL dR c flag).flag 8 = 1 ∧ bitAt (ccPixel V P ncol dL dR c flag).flag 9 = 1)
+    ∧ sameExcept89 (ccPixel V P ncol dL dR c flag).flag flag = true := by
+  obtain ⟨h8, h9⟩ := valid_bits_clear flag hv
+  rcases ccPixel_flag_cases V P ncol dL dR c flag with h | h | h <;> rw [h] <;>
+    simp only [bitAt, sameExcept89, Flags.occlusion, Flags.mismatch, Bool.and_eq_true, beq_iff_eq] at * <;>
+    norm_num at * <;> omega
+
+
+/-! ## The whole map -/
+
+theorem zipWith3_getElem? {α β γ δ : Type} (f : α → β → γ → δ) :
+    ∀ (as : List α) (bs : List β) (cs : List γ) (i : Nat) (a : α) (b : β) (c : γ),
+      as[i]? = some a → bs[i]? = some b → cs[i]? = some c → (zipWith3 f as bs cs)[i]? = some (f a b c) := by
+  intro as
+  induction as with
+  | nil => intro bs cs i a b c ha; simp at ha
+  | cons x xs ih =>
+    intro bs cs i a b c ha hb hc
+    cases bs with
+    | nil => simp at hb
+    | cons y ys =>
+      cases cs with
+      | nil => simp at hc
+      | cons z zs =>
+        cases i with
+        | zero =>
+          simp only [List.getElem?_cons_zero, Option.some.injEq] at ha hb hc
+          subst ha hb hc
+          simp [zipWith3]
+        | succ i =>
+          simp only [List.getElem?_cons_succ] at ha hb hc
+          simp only [zipWith3, List.getElem?_cons_succ]
+          exact ih ys zs i a b c ha hb hc
+
+/-- the output cell `(r, c)` of `check` -/
+def outPix (o : Out) (r c : Nat) : PixOut := ⟨(o.mask.getD r []).getD c 0, (o.conf.getD r []).getD c .nan⟩
+
+/-- every output cell is the per-pixel function of row `r` (then `mask_border`) -/
+theorem check_pix (P : Params) (A B : Dataset) (r c : Nat) (dL dR : List Val) (mL : List Nat)
+    (hA : A.disp[r]? = some dL) (hB : B.disp[r]? = some dR) (hM : A.mask[r]? = some mL) (hc : c < dL.length) :
+    outPix (check V P A B) r c =
+      ⟨if P.offset > 0 ∧ isBorder P.offset A.disp.length dL.length r c = true then Flags.leftNodataOrBorder
+        else (ccPixel V P dL.length dL dR c (mL.getD c 0)).flag,
+       (ccPixel V P dL.length dL dR c (mL.getD c 0)).conf⟩ := by
+  have hrow := zipWith3_getElem? (ccRow V P) A.disp B.disp A.mask r dL dR mL hA hB hM
+  have hlen : (ccRow V P dL dR mL).length = dL.length := by simp [ccRow]
+  have hcell : (ccRow V P dL dR mL)[c]? = some (ccPixel V P dL.length dL dR c (mL.getD c 0)) := by
+    simp [ccRow, hc]
+  simp only [outPix, check, List.getD_eq_getElem?_getD, List.getElem?_mapIdx, List.getElem?_map, hrow, hcell,
+    Option.map_some, Option.getD_some, hlen]
+
+/-- rows and columns of the two datasets line up -/
+def WfShapes (A B : Dataset) : Prop :=
+  A.disp.length = B.disp.length ∧ A.disp.length = A.mask.length ∧
+  ∀ (r : Nat) (dL dR : List Val) (mL : List Nat), A.disp[r]? = some dL → B.disp[r]? = some dR → A.mask[r]? = some mL →
+    dR.length = dL.length ∧ mL.length = dL.length
+
+/--
+  **C07, the whole map — partial.**  For maps of any size and any content, every output cell `(r, c)`
+  of `disparity_checking(A, B)` satisfies its clauses (`border_bit0_only`, `invalid_not_reexamined`,
+  `kept_iff_consistent`, `mismatch_iff_witness`, `occlusion_otherwise`, `never_both`, `only_bits_8_9`,
+  `conf_band_value`), **provided** the correspondent of every previously valid, non-border pixel lies in
+  the right image (hypothesis `hin`).
+
+  Full-strength statement (false of the code — `cc_outside_counterexample`, finding C07-F1): the same
+  without `hin`.
+-/
+theorem check_spec_partial (P : Params) (A B : Dataset) (hw : WfShapes A B)
+    (hin : ∀ (r c : Nat) (dL : List Val) (mL : List Nat), A.disp[r]? = some dL → A.mask[r]? = some mL → c < dL.length →
+      ¬(P.offset > 0 ∧ isBorder P.offset A.disp.length dL.length r c = true) →
+      Flags.isInvalid (mL.getD c 0) = false → insideRight dL.length (colRight c (dL.getD c .nan)) = true)
+    (r c : Nat) (dL dR : List Val) (mL : List Nat)
+    (hA : A.disp[r]? = some dL) (hB : B.disp[r]? = some dR) (hM : A.mask[r]? = some mL) (hc : c < dL.length) :
+    allOK (clausesPix P (decide (P.offset > 0) && isBorder P.offset A.disp.length dL.length r c)
+      dL dR c (mL.getD c 0) (outPix (check V P A B) r c)) = true := by
+  rw [check_pix V P A B r c dL dR mL hA hB hM hc]
+  obtain ⟨-, -, hrows⟩ := hw
+  obtain ⟨hlenR, -⟩ := hrows r dL dR mL hA hB hM
+  by_cases hb : P.offset > 0 ∧ isBorder P.offset A.disp.length dL.length r c = true
+  · have : (decide (P.offset > 0) && isBorder P.offset A.disp.length dL.length r c) = true := by
+      simp [hb.1, hb.2]
+    simp [clausesPix, this, hb, allOK]
+  · have hb' : (decide (P.offset > 0) && isBorder P.offset A.disp.length dL.length r c) = false := by
+      by_contra hcon
+      simp only [Bool.not_eq_false, Bool.and_eq_true, decide_eq_true_eq] at hcon
+      exact hb hcon
+    rw [hb']
+    simp only [hb, ↓reduceIte]
+    exact ccPixel_spec_partial V P dL.length dL dR c (mL.getD c 0) hlenR
+      (fun hv => hin r c dL mL hA hM hc hb hv)
+
+/-- the step does not modify any disparity -/
+theorem check_disp_unchanged (P : Params) (A B : Dataset) : (check V P A B).disp = A.disp := rfl
+
+/-- the validity mask of the dataset checked *against* plays no role -/
+theorem check_other_mask_irrelevant (P : Params) (A B : Dataset) (m : Grid Nat) :
+    check V P A B = check V P A { disp := B.disp, mask := m } := rfl
+
+/-- **right_same_rule**: `validation_run` checks the right map against the left one by the very same
+    function, and — the first check not having modified the left disparities — against the *original*
+    left map. -/
+theorem validationRun_right_same_rule (PL PR : Params) (L R : Dataset) :
+    (validationRun V PL PR L R).1 = check V PL L R ∧ (validationRun V PL PR L R).2 = check V PR R L := by
+  constructor
+  · rfl
+  · simp only [validationRun]
+    rfl
+
+
+/-! ## The repaired step (proposed_fixes/C07-outside-right.diff): the statement without exception -/
+
+/-- a correspondent outside the right image is not consistent, and nothing is owed to the confidence band -/
+theorem outside_not_consistent (P : Params) (ncol : Nat) (dL dR : List Val) (c : Nat) (conf : Conf) (qi : Int)
+    (hlen : dR.length = ncol) (hout : ¬(0 ≤ qi ∧ qi < (ncol : Int))) :
+    consistentOpt P dL dR c (some qi) = false ∧ confOKOpt dL dR c conf (some qi) = true := by
+  have hcell : cell dR qi = none := by
+    simp only [cell, hlen]
+    rw [if_neg hout]
+  simp only [consistentOpt, consistentAt, confOKOpt, distance, hcell, and_self]
+
+/-- **C07, one pixel, repaired code (`ruleFix`): every clause, for every input.** -/
+theorem ccPixel_ruleFix_spec (P : Params) (ncol : Nat) (dL dR : List Val) (c flag : Nat) (hlen : dR.length = ncol) :
+    allOK (clausesPix P false dL dR c flag (ccPixel .ruleFix P ncol dL dR c flag)) = true := by
+  by_cases hin : Flags.isInvalid flag = false → insideRight ncol (colRight c (dL.getD c .nan)) = true
+  · exact ccPixel_spec_partial .ruleFix P ncol dL dR c flag hlen hin
+  · simp only [Classical.not_imp, Bool.not_eq_true] at hin
+    obtain ⟨hv, hout⟩ := hin
+    have hmodel : ccPixel .ruleFix P ncol dL dR c flag
+        = ⟨flag + Flags.occlusion + Flags.mismatch * comp ncol dR c (arange P.dmin P.dmax)
+            - Flags.occlusion * comp ncol dR c (arange P.dmin P.dmax), .nan⟩ := by
+      simp only [ccPixel, ccOutside, hv, Bool.false_eq_true, ↓reduceIte, hout]
+    rw [hmodel]
+    cases hd : dL.getD c .nan with
+    | nan =>
+      -- no correspondent at all
+      have hcor : correspondents dL c = [] := by simp only [correspondents, hd]
+      simp only [clausesPix, Bool.false_eq_true, ↓reduceIte, hv, hcor]
+      exact flagged_clauses P ncol dL dR c flag .nan none hlen hv rfl rfl
+    | num d =>
+      rw [hd] at hout
+      simp only [colRight, insideRight, Bool.and_eq_false_iff, decide_eq_false_iff_not] at hout
+      have hout' : ¬(0 ≤ (c : Int) + rint d ∧ (c : Int) + rint d < (ncol : Int)) := by
+        rintro ⟨h0, h1⟩
+        rcases hout with h | h
+        · exact h h0
+        · exact h h1
+      obtain ⟨hnc, hcf⟩ := outside_not_consistent P ncol dL dR c .nan _ hlen hout'
+      apply clausesPix_of_candidate P dL dR c flag _ ((c : Int) + rint d) hv
+      · simp only [correspondents, hd, List.mem_map]; exact ⟨rint d, rint_mem_nearest d, rfl⟩
+      · exact flagged_clauses P ncol dL dR c flag .nan (some _) hlen hv hnc hcf
+
+/-- **C07, the whole map, repaired code: the statement holds at every cell of every map.** -/
+theorem check_spec_ruleFix (P : Params) (A B : Dataset) (hw : WfShapes A B)
+    (r c : Nat) (dL dR : List Val) (mL : List Nat)
+    (hA : A.disp[r]? = some dL) (hB : B.disp[r]? = some dR) (hM : A.mask[r]? = some mL) (hc : c < dL.length) :
+    allOK (clausesPix P (decide (P.offset > 0) && isBorder P.offset A.disp.length dL.length r c)
+      dL dR c (mL.getD c 0) (outPix (check .ruleFix P A B) r c)) = true := by
+  rw [check_pix .ruleFix P A B r c dL dR mL hA hB hM hc]
+  obtain ⟨-, -, hrows⟩ := hw
+  obtain ⟨hlenR, -⟩ := hrows r dL dR mL hA hB hM
+  by_cases hb : P.offset > 0 ∧ isBorder P.offset A.disp.length dL.length r c = true
+  · have : (decide (P.offset > 0) && isBorder P.offset A.disp.length dL.length r c) = true := by
+      simp [hb.1, hb.2]
+    simp [clausesPix, this, hb, allOK]
+  · have hb' : (decide (P.offset > 0) && isBorder P.offset A.disp.length dL.length r c) = false := by
+      by_contra hcon
+      simp only [Bool.not_eq_false, Bool.and_eq_true, decide_eq_true_eq] at hcon
+      exact hb hcon
+    rw [hb']
+    simp only [hb, ↓reduceIte]
+    exact ccPixel_ruleFix_spec P dL.length dL dR c (mL.getD c 0) hlenR
+
+/-! ## Tie to the source, non-vacuity, counterexample -/
+
+/-- the constants the model uses are the ones `pandora/constants.py` defines now -/
+theorem flags_tied :
+    Flags.occlusion = Generated.Constants.PANDORA_MSK_PIXEL_OCCLUSION
+    ∧ Flags.mismatch = Generated.Constants.PANDORA_MSK_PIXEL_MISMATCH
+    ∧ Flags.leftNodataOrBorder = Generated.Constants.PANDORA_MSK_PIXEL_LEFT_NODATA_OR_BORDER
+    ∧ Flags.pixelInvalid = Generated.Constants.PANDORA_MSK_PIXEL_INVALID := by decide
+
+def exParams : Params := { threshold := 1, dmin := -2, dmax := 3, offset := 0 }
+def exA : Dataset := { disp := [[.num 0, .num 1, .num (-1), .num (1/2), .num 0]], mask := [[0, 0, 4, 0, 2]] }
+def exB : Dataset := { disp := [[.num 1, .num 3, .num 2, .num 0, .num 0]], mask := [[0, 0, 0, 0, 0]] }
+
+/-- non-vacuity: a map whose valid pixels all have their correspondent in the image (the hypothesis of
+    `check_spec_partial`), with a kept pixel, a mismatch, an occlusion, a kept tie and an invalid pixel -/
+example : (check .asIs exParams exA exB).mask = [[0, 512, 4 + 256, 0, 2]]
+    ∧ (check .asIs exParams exA exB).conf = [[.fin 1, .fin 3, .fin 2, .fin (1/2), .nan]]
+    ∧ ((List.range 5).all fun c =>
+        insideRight 5 (colRight c ((exA.disp.getD 0 []).getD c .nan))) = true := by
+  decide +kernel
+
+/-- **C07-F1** (clauses `kept_iff_consistent`, `mismatch_iff_witness` false of the code): `dL = 3` at the
+    last of four columns: the correspondent (column 6) is outside the right image and the pixel stays
+    unflagged, although `round(dR(p + d)) = -d` for `d = -2`.  The repaired model flags it mismatch; the
+    `|` repair flags it occlusion. -/
+theorem cc_outside_counterexample :
+    (check .asIs exParams { disp := [[.num 0, .num 0, .num 0, .num 3]], mask := [[0, 0, 0, 0]] }
+        { disp := [[.num 2, .num 2, .num 2, .num 2]], mask := [[0, 0, 0, 0]] }).mask = [[256, 256, 512, 0]]
+    ∧ failingPix exParams false [.num 0, .num 0, .num 0, .num 3] [.num 2, .num 2, .num 2, .num 2] 3 0 ⟨0, .nan⟩
+        = ["kept_iff_consistent", "mismatch_iff_witness"]
+    ∧ (check .ruleFix exParams { disp := [[.num 0, .num 0, .num 0, .num 3]], mask := [[0, 0, 0, 0]] }
+        { disp := [[.num 2, .num 2, .num 2, .num 2]], mask := [[0, 0, 0, 0]] }).mask = [[256, 256, 512, 512]]
+    ∧ (check .orFix exParams { disp := [[.num 0, .num 0, .num 0, .num 3]], mask := [[0, 0, 0, 0]] }
+        { disp := [[.num 2, .num 2, .num 2, .num 2]], mask := [[0, 0, 0, 0]] }).mask = [[256, 256, 512, 256]] := by
+  decide +kernel
+
+
+/-! ## The source as it is now (`Generated/RefineCC.lean`, regenerated from the source text on every run) -/
+
+/-- which repair of C07-F1 the source carries, read from its text -/
+def sourceVariant : Variant :=
+  if Generated.RefineCC.outsideSearched then .ruleFix
+  else if Generated.RefineCC.outsideIsOr then .orFix else .asIs
+
+/-- **C07 for the source as it is now**: `check_spec_partial` at the variant regenerated from the source
+    (`inside_right`, `invalid`, `col_right` and the search are recognised textually by the translator or the
+    build has no `Generated/RefineCC.lean`). -/
+theorem source_check_spec (P : Params) (A B : Dataset) (hw : WfShapes A B)
+    (hin : ∀ (r c : Nat) (dL : List Val) (mL : List Nat), A.disp[r]? = some dL → A.mask[r]? = some mL → c < dL.length →
+      ¬(P.offset > 0 ∧ isBorder P.offset A.disp.length dL.length r c = true) →
+      Flags.isInvalid (mL.getD c 0) = false → insideRight dL.length (colRight c (dL.getD c .nan)) = true)
+    (r c : Nat) (dL dR : List Val) (mL : List Nat)
+    (hA : A.disp[r]? = some dL) (hB : B.disp[r]? = some dR) (hM : A.mask[r]? = some mL) (hc : c < dL.length) :
+    allOK (clausesPix P (decide (P.offset > 0) && isBorder P.offset A.disp.length dL.length r c)
+      dL dR c (mL.getD c 0) (outPix (check sourceVariant P A B) r c)) = true :=
+  check_spec_partial sourceVariant P A B hw hin r c dL dR mL hA hB hM hc
+
+end Pandora.C07
